@@ -314,6 +314,376 @@ def oracle_herm(ctx, W, L, pat, coeffs):
     return flag
 
 
+# ---------------------------------------------------------------------------------------------
+# EXACT reference (rational arithmetic) straight from the property text: the ladder operators as signed
+# partial permutations  c_i|b> = [b_i = 0] (-1)^(sum_{j>i} b_j) |b + e_i>,  a_i likewise with b_i = 1
+# (basis states as integers, site 0 = most significant bit).  Independent of the np.kron reference above.
+def act_ladder(L, create, i, b):
+    sh = L - 1 - i
+    if ((b >> sh) & 1) == (1 if create else 0):
+        return None
+    later = b & ((1 << sh) - 1)
+    return (-1 if bin(later).count("1") & 1 else 1), b ^ (1 << sh)
+
+
+def fermi_entries(L):
+    """entries(pat, idx) -> [(row, col, re, im)] of the ordered product, entries are +-1"""
+    def entries(pat, idx):
+        out = []
+        ops = list(zip(pat, idx))[::-1]          # the rightmost operator acts first
+        for col in range(2 ** L):
+            s, b = 1, col
+            for kind, j in ops:
+                r = act_ladder(L, bool(kind), j, b)
+                if r is None:
+                    b = None
+                    break
+                s, b = s * r[0], r[1]
+            if b is not None:
+                out.append((b, col, s, 0))
+        return out
+    return entries
+
+
+def dense_entries(L, lad):
+    """entries(pat, idx) for a family lad(i, create) of dense matrices whose entries are dyadic (products are
+    exact in binary64 for the short products used here)"""
+    cache = {}
+
+    def entries(pat, idx):
+        key = (tuple(pat), tuple(idx))
+        if key not in cache:
+            P = np.eye(2 ** L, dtype=complex)
+            for kind, j in zip(pat, idx):
+                P = P @ lad(j, bool(kind))
+            rr, cc = np.nonzero(P)
+            cache[key] = [(int(r), int(c), Fraction(float(P[r, c].real)), Fraction(float(P[r, c].imag))) for r, c in zip(rr, cc)]
+        return cache[key]
+    return entries
+
+
+class ExactRef:
+    """sum over terms and multi-indices of coeff * ordered product, in exact rational arithmetic.
+    R[(r,c)] = [re, im] (Fractions); per entry the number of contributions and the sum of their magnitudes
+    (for a rigorous bound on the rounding error of ANY summation order); the same per 'x-diagonal' r xor c."""
+    def __init__(self, L, terms, entries, site_x=None):
+        """site_x(j): the x-diagonal (row xor column) the ladder matrices of site j live on; default: the
+        reference operators (bit of site j).  Used only for the rounding bound of the encoders, where the 2^k
+        strings of a coefficient are accumulated one by one even if the product as a whole vanishes."""
+        self.L = L
+        self.R, self.cnt, self.mag = {}, {}, {}
+        self.xcnt, self.xmag = {}, {}
+        site_x = site_x or (lambda j: 1 << (L - 1 - j))
+        for pat, coeffs in terms:
+            coeffs = np.asarray(coeffs)
+            for idx in itertools.product(range(L), repeat=len(pat)):
+                c = complex(coeffs[idx])
+                if c == 0:
+                    continue
+                cre, cim = Fraction(c.real), Fraction(c.imag)
+                mag = Fraction(abs(c.real)) + Fraction(abs(c.imag))
+                x = 0
+                for j in idx:
+                    x ^= site_x(j)
+                self.xcnt[x] = self.xcnt.get(x, 0) + 2 ** len(pat)
+                self.xmag[x] = self.xmag.get(x, 0) + mag
+                for r, col, vre, vim in entries(pat, idx):
+                    e = self.R.setdefault((r, col), [Fraction(0), Fraction(0)])
+                    e[0] += cre * vre - cim * vim
+                    e[1] += cre * vim + cim * vre
+                    m = mag * (abs(vre) + abs(vim))
+                    self.cnt[(r, col)] = self.cnt.get((r, col), 0) + 1
+                    self.mag[(r, col)] = self.mag.get((r, col), 0) + m
+
+    def entry(self, r, c):
+        return self.R.get((r, c), (Fraction(0), Fraction(0)))
+
+    def entry_bound(self, r, c, exact_products=True):
+        """bound on |computed - exact| for binary64 accumulation in any order; 0 for a single contribution
+        with an exact product"""
+        n = self.cnt.get((r, c), 0)
+        k = n - 1 if exact_products else n + 1
+        if k <= 0:
+            return Fraction(0)
+        return k * (self.mag[(r, c)] * Fraction(1, 2 ** 51) + Fraction(1, 2 ** 1073))
+
+    def xbound(self, x):
+        n = self.xcnt.get(x, 0)
+        if n == 0:
+            return Fraction(0)
+        return (n + 2) * (self.xmag[x] * Fraction(1, 2 ** 50) + Fraction(1, 2 ** 1072))
+
+    def compare(self, M, exact_products=True):
+        """None if the complex matrix M is the exact sum up to the rounding bound, else a description;
+        second component: whether M is EXACTLY the rational sum"""
+        M = np.asarray(M)
+        d = 2 ** self.L
+        if M.shape != (d, d):
+            return "shape %r" % (M.shape,), False
+        if not np.all(np.isfinite(M)):
+            return "non-finite entries", False
+        exact = True
+        rr, cc = np.nonzero(M)
+        todo = set(zip(map(int, rr), map(int, cc))) | set(self.R)
+        for r, c in todo:
+            v = complex(M[r, c])
+            ere, eim = self.entry(r, c)
+            dre, dim = abs(Fraction(v.real) - ere), abs(Fraction(v.imag) - eim)
+            if dre or dim:
+                exact = False
+                if max(dre, dim) > self.entry_bound(r, c, exact_products):
+                    return ("entry (%d,%d): observed %r, exact value %s%+sj (allowed rounding error %.3g)"
+                            % (r, c, v, fstr(ere), fstr(eim), float(self.entry_bound(r, c, exact_products)))), False
+        return None, exact
+
+
+def fstr(fr):
+    """short readable form of a Fraction that may be far outside the binary64 range"""
+    try:
+        return "%.17g" % float(fr)
+    except OverflowError:
+        return str(fr)
+
+
+def scale_terms(terms, e):
+    """multiply every coefficient by 2^e (exact as long as nothing leaves the normal range)"""
+    return [(p, np.asarray(c, dtype=complex) * (2.0 ** e)) for p, c in terms]
+
+
+# exponents e of the coefficient scale 2^e: subnormals, 1e-300 ... 1e300, dense around the thresholds a
+# "numerically zero" test would use (1e-8 ~ 2^-26.6, 1e-12 ~ 2^-39.9, 1e-14 ~ 2^-46.5, 1e-16 ~ 2^-53)
+EXPS = [-1074, -1060, -1030, -1022, -1000, -900, -700, -500, -300, -200, -150, -120, -100, -80, -70, -64, -60,
+        -56, -53, -52, -50, -48, -47, -46, -45, -44, -42, -40, -37, -34, -32, -30, -28, -27, -26, -25, -24, -22,
+        -20, -17, -14, -12, -10, -7, -4, -2, 2, 5, 10, 20, 30, 40, 53, 64, 100, 200, 300, 500, 700, 900, 1000]
+# patterns whose ordered product is non-zero for the listed kind of index
+NZ_PATS = [[1], [0], [1, 0], [0, 1], [1, 0, 1], [0, 1, 0], [1, 1, 0, 0]]
+
+
+def single_entry_term(rng, L, e):
+    """one non-zero coefficient u * 2^e (u a unit 1, -1, i, -i) on a product that does not vanish"""
+    pats = [p for p in NZ_PATS if len(p) < 4 or L >= 2]
+    pat = rng.choice(pats)
+    k = len(pat)
+    if k == 4:
+        i, j = rng.sample(range(L), 2)
+        idx = (i, j, j, i)
+    elif k == 3:
+        i = rng.randrange(L)
+        idx = (i, i, i)
+    else:
+        idx = tuple(rng.randrange(L) for _ in range(k))
+    c = np.zeros((L,) * k, dtype=complex)
+    c[idx] = rng.choice([1, -1, 1j, -1j]) * 2.0 ** e
+    return pat, c
+
+
+def xor_mask(L, idx):
+    m = 0
+    for j in idx:
+        m ^= 1 << (L - 1 - j)
+    return m
+
+
+def mixed_scale_terms(rng, L, nterms, emax=1000, kmax=3):
+    """several scales inside ONE tensor, arranged so that the arithmetic stays exact: the scale of c[idx] is a
+    function of the set-parity of idx (coefficients with different parities never meet in a matrix entry nor in
+    a Pauli string, for the reference operators and for both encodings)"""
+    table = {}
+    terms = []
+    for _ in range(nterms):
+        k = rng.choice([k for k in range(1, kmax + 1) if L ** k <= 100])
+        pat = rand_pat(rng, k)
+        c = np.zeros((L,) * k, dtype=complex)
+        for idx in itertools.product(range(L), repeat=k):
+            if rng.random() < 0.6:
+                m = xor_mask(L, idx)
+                if m not in table:
+                    table[m] = rng.choice([-emax, -emax // 2, -300, -100, -60, -47, -40, -30, -27, -20, 0, 20, 60, 300, emax // 2, emax])
+                c[idx] = rng.choice(VALS) * 2.0 ** table[m]
+        terms.append((pat, c))
+    return terms
+
+
+def interacting_scale_terms(rng, L, nterms, exps=(0, -27, -30, -40), kmax=3):
+    """scales that DO meet in one matrix entry / Pauli weight: small integers times 2^0, 2^-27, 2^-30, 2^-40
+    (all partial sums fit into 53 bits, so binary64 arithmetic is still exact)"""
+    terms = []
+    for _ in range(nterms):
+        k = rng.choice([k for k in range(1, kmax + 1) if L ** k <= 64])
+        pat = rand_pat(rng, k)
+        c = np.zeros((L,) * k, dtype=complex)
+        for idx in itertools.product(range(L), repeat=k):
+            if rng.random() < 0.7:
+                c[idx] = complex(rng.randint(-3, 3), rng.choice([0, 0, 1, -2])) * 2.0 ** rng.choice(exps)
+        terms.append((pat, c))
+    return terms
+
+
+def scaled_family(rng, thorough, Lmax=3):
+    """(L, terms, tag, e) : operators whose coefficient magnitudes sweep the binary64 range"""
+    out = []
+    for e in EXPS:
+        for rep in range(2 if thorough else 1):
+            L = rng.choice(list(range(1, Lmax + 1)))
+            out.append((L, [single_entry_term(rng, L, e)], "single", e))
+        if -1020 <= e <= 1000:
+            L = rng.choice([1, 2, 2, 3][:Lmax + 1])
+            k = rng.choice([1, 2, 2, 3] if L < 3 else [1, 2, 2])
+            base_terms = [(rand_pat(rng, k), rand_coeffs(rng, L, k, rng.choice(["dense", "sparse", "dense"])))]
+            if rng.random() < 0.4:
+                base_terms.append((rand_pat(rng, 2), rand_coeffs(rng, L, 2, "dense")))
+            out.append((L, scale_terms(base_terms, e), "one-scale", e))
+    for _ in range(24 if thorough else 8):
+        L = rng.choice([2, 2, 3][:Lmax])
+        out.append((L, mixed_scale_terms(rng, L, rng.choice([1, 2])), "mixed-disjoint", None))
+        out.append((L, interacting_scale_terms(rng, L, rng.choice([1, 2])), "mixed-interacting", None))
+    return out
+
+
+def long_product_terms(rng, thorough):
+    """(L, terms): products of 5..8 ladder operators (the 2^-k weight, deep products), one or two coefficients"""
+    out = []
+    for k in ([5, 6, 7, 8] if not thorough else [5, 5, 6, 6, 7, 7, 8, 8, 9]):
+        L = rng.choice([1, 2, 2])
+        i = rng.randrange(L)
+        first = rng.randint(0, 1)
+        pat = [(first + t) % 2 for t in range(k)]            # alternating: never vanishes on one site
+        c = np.zeros((L,) * k, dtype=complex)
+        c[(i,) * k] = rng.choice([1, -2, 1j, 0.5 - 0.5j, 3])
+        if L == 2:
+            idx = tuple(rng.randrange(L) for _ in range(k))
+            c[idx] += rng.choice([1, -1j, 2])
+        out.append((L, [(pat, c)]))
+    return out
+
+
+def oracle_opx(ctx, W, L, terms, check_adjoint=True):
+    """as_matrix against the exact rational reference (any coefficient magnitude); returns (matrix, exact?)"""
+    d = dict(desc_terms(L, terms), kind="opx")
+    fop = W.op(L, terms)
+    M = dense(fop.as_matrix())
+    ref = ExactRef(L, terms, fermi_entries(L))
+    bad, exact = ref.compare(M)
+    if bad:
+        ctx.fail("as_matrix:coefficient-lost-or-distorted(any-magnitude)", d,
+                 "sum coeff * ordered product, exactly (rational arithmetic) up to the binary64 rounding bound", bad)
+    if check_adjoint:
+        Ma = dense(fop.adjoint().as_matrix())
+        bad2, _ = ref.compare(Ma.conj().T)
+        if bad2:
+            ctx.fail("adjoint:matrix-not-adjoint(any-magnitude)", d, "matrix(adjoint A) = matrix(A)^dagger", bad2)
+    return M, (exact or bool(bad))
+
+
+def oracle_homog(ctx, W, L, terms, e):
+    """homogeneity: matrix(2^e A) = 2^e matrix(A), exactly (a power of two commutes with rounding)"""
+    d = dict(desc_terms(L, terms), kind="homog", e=e)
+    M0 = dense(W.op(L, terms).as_matrix())
+    M1 = dense(W.op(L, scale_terms(terms, e)).as_matrix())
+    if not np.array_equal(M1, M0 * 2.0 ** e):
+        ctx.fail("as_matrix:not-homogeneous-in-the-coefficients", d, "matrix(2^%d A) = 2^%d matrix(A)" % (e, e),
+                 "max |difference| / 2^e = %g" % float(np.abs(M1 * 2.0 ** -e - M0).max()))
+
+
+def oracle_additive(ctx, W, L, pat, c1, c2):
+    """additivity in the coefficient tensor: matrix(pat, c1 + c2) = matrix(pat, c1) + matrix(pat, c2)
+    (the caller supplies tensors for which the three evaluations are exact)"""
+    d = {"kind": "additive", "L": L, "a": desc_terms(L, [(pat, c1)]), "b": desc_terms(L, [(pat, c2)])}
+    M1 = dense(W.op(L, [(pat, c1)]).as_matrix())
+    M2 = dense(W.op(L, [(pat, c2)]).as_matrix())
+    M12 = dense(W.op(L, [(pat, c1 + c2)]).as_matrix())
+    if not np.array_equal(M12, M1 + M2):
+        ctx.fail("as_matrix:not-additive-in-the-coefficients", d, "matrix(c1 + c2) = matrix(c1) + matrix(c2)",
+                 "max diff %g" % float(np.abs(M12 - M1 - M2).max()))
+
+
+# ---------------------------------------------------------------------------------------------
+# history / aliasing: operations must not modify their operands, and results are reproducible
+def snapshot(W, fop):
+    return [(tuple(W.pat_of(t)), np.array(t.coeffs, copy=True), np.asarray(t.coeffs).dtype.str) for t in fop.terms]
+
+
+def snapshot_diff(W, snap, fop):
+    if len(fop.terms) != len(snap):
+        return "number of terms changed from %d to %d" % (len(snap), len(fop.terms))
+    for n, ((pat, c, dt), t) in enumerate(zip(snap, fop.terms)):
+        if tuple(W.pat_of(t)) != pat:
+            return "operator pattern of term %d changed" % n
+        tc = np.asarray(t.coeffs)
+        if tc.shape != c.shape or not np.array_equal(tc, c):
+            return "coefficient tensor of term %d changed" % n
+    return None
+
+
+def oracle_history(ctx, W, L, ta, tb):
+    """A + B, A @ B, adjoint(), as_matrix() leave A and B as they were (values of the coefficient arrays, patterns,
+    term lists); B can be used afterwards; repeated evaluations give identical results"""
+    d = {"kind": "hist", "a": desc_terms(L, ta), "b": desc_terms(L, tb)}
+    A, B = W.op(L, ta), W.op(L, tb)
+    sa, sb = snapshot(W, A), snapshot(W, B)
+    MA, MB = dense(A.as_matrix()), dense(B.as_matrix())
+
+    def unchanged(after):
+        for nm, snap, X in (("A", sa, A), ("B", sb, B)):
+            df = snapshot_diff(W, snap, X)
+            if df:
+                ctx.fail("history:operand-modified-by-" + after, d, "%s unchanged by %s" % (nm, after), "%s: %s" % (nm, df))
+                return False
+        return True
+    ok = unchanged("as_matrix")
+    if not (np.array_equal(dense(A.as_matrix()), MA) and np.array_equal(dense(B.as_matrix()), MB)):
+        ctx.fail("history:as_matrix-not-reproducible", d, "two calls of as_matrix() on one object agree", "differ")
+    S = A + B
+    ok = unchanged("add") and ok
+    MS = dense(S.as_matrix())
+    P = A @ B
+    ok = unchanged("matmul") and ok
+    MP = dense(P.as_matrix())
+    Ad = A.adjoint()
+    Bd = B.adjoint()
+    ok = unchanged("adjoint") and ok
+    MAd = dense(Ad.as_matrix())
+    # everything again, in another order, re-using the operands and the earlier results
+    S2 = A + B
+    T = B + A
+    Q = B @ A
+    AA = A + A
+    tot = sum([A, B, A])
+    ok = unchanged("repeated-add-matmul") and ok
+    checks = [("matrix(B) after the operations", dense(B.as_matrix()), MB),
+              ("matrix(A) after the operations", dense(A.as_matrix()), MA),
+              ("matrix(A+B) evaluated again", dense(S.as_matrix()), MS),
+              ("matrix of a second A+B", dense(S2.as_matrix()), MS),
+              ("matrix(A+B) = matrix(A)+matrix(B) (operands evaluated afterwards)", MS, MA + MB),
+              ("matrix(B+A) = matrix(A+B)", dense(T.as_matrix()), MB + MA),
+              ("matrix(A@B) evaluated again", dense(P.as_matrix()), MP),
+              ("matrix(A@B) = matrix(A) matrix(B)", MP, MA @ MB),
+              ("matrix(B@A) = matrix(B) matrix(A)", dense(Q.as_matrix()), MB @ MA),
+              ("matrix(A+A) = 2 matrix(A)", dense(AA.as_matrix()), MA + MA),
+              ("matrix(sum([A,B,A]))", dense(tot.as_matrix()), (MA + MB) + MA),
+              ("matrix(adjoint A) evaluated again", dense(Ad.as_matrix()), MAd),
+              ("matrix(adjoint A) = matrix(A)^dagger", MAd, MA.conj().T),
+              ("matrix(adjoint(adjoint B)) = matrix(B)", dense(Bd.adjoint().as_matrix()), MB)]
+    for what, got, want in checks:
+        if got.shape != want.shape or not np.array_equal(got, want):
+            ctx.fail("history:result-depends-on-earlier-operations", d, what, "differs (max %g)" % (
+                float(np.abs(got - want).max()) if got.shape == want.shape else -1))
+            break
+    return ok
+
+
+def dup_pattern_terms(rng, L):
+    """operand with two (or three) terms of the SAME operator pattern, and a partner without that pattern"""
+    k = rng.choice([1, 2, 2])
+    pat = rand_pat(rng, k)
+    tb = [(pat, rand_coeffs(rng, L, k, "dense")) for _ in range(rng.choice([2, 2, 3]))]
+    other = [1 - b for b in pat] if rng.random() < 0.6 else pat + [rng.randint(0, 1)]
+    ta = [(other, rand_coeffs(rng, L, len(other), "dense"))]
+    if rng.random() < 0.3:
+        tb.insert(1, (other[::-1] + [0], rand_coeffs(rng, L, len(other) + 1, "sparse")))
+    return ta, tb
+
+
 def run(ctx):
     import fermi as gen_fermi
     W = World()
@@ -405,6 +775,43 @@ def run(ctx):
             add("CMatDef %s %s %s" % (ct.nat(L), cop(terms), qimat(M)), dict(d, op="as_matrix(definition)"), nt)
 
     ctx.log("operators done: %d cases" % len(cases))
+    # ------------------------------------------------------------ coefficient magnitudes over the binary64 range
+    # exact rational oracle + homogeneity/additivity + (where the arithmetic is exact) the Coq model on the same data
+    for L, terms, tag, e in scaled_family(rng, ctx.thorough):
+        ctx.count("scaled_" + tag)
+        d = dict(desc_terms(L, terms), kind="opx")
+        try:
+            M, exact = oracle_opx(ctx, W, L, terms)
+        except Exception as ex:
+            ctx.fail("as_matrix:exception", d, "matrix", repr(ex))
+            continue
+        if exact and 2 ** L * 2 ** L * sum(np.asarray(c).size for _, c in terms) <= 2000:
+            ctx.count("scaled_cases_for_the_model")
+            add("CMat %s %s %s" % (ct.nat(L), cop(terms), qimat(M)), dict(d, op="as_matrix", scale=tag, e=e), nontrivial(terms))
+        elif not exact:
+            ctx.count("scaled_rounded(not sent to the model)")
+    for L, terms in long_product_terms(rng, ctx.thorough):
+        ctx.count("long_products")
+        d = dict(desc_terms(L, terms), kind="opx")
+        try:
+            M, exact = oracle_opx(ctx, W, L, terms)
+            add("CMat %s %s %s" % (ct.nat(L), cop(terms), qimat(M)), dict(d, op="as_matrix", long=len(terms[0][0])), True)
+        except Exception as ex:
+            ctx.fail("as_matrix:exception", d, "matrix", repr(ex))
+    for _ in range(40 if ctx.thorough else 14):
+        L = rng.choice([1, 2, 2, 3])
+        terms = rand_terms(rng, L, nterms=rng.choice([1, 2]), kmax=3, budget=64)
+        e = rng.choice([-900, -500, -300, -100, -60, -47, -40, -30, -27, -20, -10, 10, 40, 100, 300, 900])
+        ctx.count("homogeneity")
+        try:
+            oracle_homog(ctx, W, L, terms, e)
+            k = rng.choice([1, 2])
+            pat = rand_pat(rng, k)
+            c1 = rand_coeffs(rng, L, k, "dense")
+            c2 = np.asarray(rand_coeffs(rng, L, k, "sparse"), dtype=complex) * 2.0 ** rng.choice([-30, -27, -40, 0])
+            oracle_additive(ctx, W, L, pat, c1, c2)
+        except Exception as ex:
+            ctx.fail("as_matrix:exception", dict(desc_terms(L, terms), kind="homog", e=e), "matrix", repr(ex))
     # ------------------------------------------------------------ sums and products
     npairs = 300 if ctx.thorough else 60
     for _ in range(npairs):
@@ -421,6 +828,26 @@ def run(ctx):
         nt = nontrivial(ta) and nontrivial(tb)
         add("CMul %s %s %s %s" % (ct.nat(L), cop(ta), cop(tb), cop(W.terms_of(A @ B))), dict(d, op="matmul"), nt)
         add("CAdd %s %s %s %s" % (ct.nat(L), cop(ta), cop(tb), cop(W.terms_of(A + B))), dict(d, op="add"), nt)
+
+    # ------------------------------------------------------------ history / aliasing
+    for n in range(120 if ctx.thorough else 40):
+        L = rng.choice([1, 2, 2, 3])
+        if n % 3 == 0:
+            ta, tb = dup_pattern_terms(rng, L)
+            if rng.random() < 0.5:
+                ta, tb = tb, ta
+        elif n % 3 == 1:
+            ta = rand_terms(rng, L, nterms=rng.choice([1, 2, 3]), kmax=2, budget=30)
+            tb = rand_terms(rng, L, nterms=rng.choice([1, 2, 3]), kmax=2, budget=30)
+        else:
+            # two scales that meet in sums and products, chosen so that every partial result fits into 53 bits
+            ta = interacting_scale_terms(rng, L, rng.choice([1, 2]), exps=(0, -12), kmax=2)
+            tb = scale_terms(rand_terms(rng, L, nterms=rng.choice([1, 2]), kmax=2, budget=30), rng.choice([-30, -27, -20]))
+        ctx.count("history")
+        try:
+            oracle_history(ctx, W, L, ta, tb)
+        except Exception as ex:
+            ctx.fail("history:exception", {"kind": "hist", "a": desc_terms(L, ta), "b": desc_terms(L, tb)}, "operations", repr(ex))
 
     # ------------------------------------------------------------ Hermitian flag
     nh = 400 if ctx.thorough else 90
@@ -479,6 +906,20 @@ def replay(ctx, data):
     elif kind == "herm":
         L, terms = undesc_terms(inp)
         oracle_herm(ctx, W, L, *terms[0])
+    elif kind == "opx":
+        L, terms = undesc_terms(inp)
+        oracle_opx(ctx, W, L, terms)
+    elif kind == "homog":
+        L, terms = undesc_terms(inp)
+        oracle_homog(ctx, W, L, terms, inp["e"])
+    elif kind == "additive":
+        L, ta = undesc_terms(inp["a"])
+        _, tb = undesc_terms(inp["b"])
+        oracle_additive(ctx, W, L, ta[0][0], ta[0][1], tb[0][1])
+    elif kind == "hist":
+        L, ta = undesc_terms(inp["a"])
+        _, tb = undesc_terms(inp["b"])
+        oracle_history(ctx, W, L, ta, tb)
     # a replay reports under the recorded signature
     if len(ctx.failing) > before:
         ctx.failing[:] = ctx.failing[:before]
